@@ -25,7 +25,7 @@ CLAIMED = {
    text="TLC explores every factorization route as a state machine (GBFactorize: plain dictionary, mixed-radix multi-key, "
         "monotone prefix scan, chunk tasks finishing in any order, pointer tables, unification) over all key arrays within the "
         "bounds and checks the faithful-partition relation P1-P4; every recorded real factorization (factorize_1d/2d, GroupBy "
-        "codes, groups, key_count, has_null_keys, len over dtype x container x route) is validated by TLC against the same relation (P1-P5).",
+        "codes, groups, key_count, has_null_keys, len over dtype x container x route, plus probe traces of 3-4 keys with 46341..70000 labels each) is validated by TLC against the same relation (P1-P5).",
    note="trusted: code/label projection (gbverif/drivers/factorize.py); bounds: rows<=7 x 3 labels on the spec, rows<=12 on the code; thresholds scaled down via core.THRESHOLD_FOR_CHUNKED_FACTORIZE",
    technique="TLA+ spec GBFactorize model-checked with TLC + trace validation (Trace_GBFactorize) of real factorizations",
    ref="DESIGN.md section 6/C02"),
@@ -61,7 +61,7 @@ CLAIMED = {
    technique="TLA+ spec GBCore model-checked with TLC + trace validation (Trace_GBCore, Trace_GBApply) of transform calls",
    ref="DESIGN.md section 6/C07"),
  "C10": dict(
-   text="TLC checks the EMA machine (GBEma: per-group residual/weight/last output/last time in exact integer arithmetic, plain and time-weighted) against the closed-form normalised weighted mean over the row history in every state and that groups are independent; every row of every recorded ema / ema_grouped / GroupBy.ema call, recovered as an exact rational, is one observation of a RowEma action (beta in {0,1/4,1/2,3/4} given as alpha or real halflife; irregular timestamps in ns/us/s, tz-aware, before the epoch).",
+   text="TLC checks the EMA machine (GBEma: per-group residual/weight/last output/last time in exact integer arithmetic, plain and time-weighted) against the closed-form normalised weighted mean over the row history in every state and that groups are independent; every row of every recorded ema / ema_grouped / GroupBy.ema call, recovered as an exact rational, is one observation of a RowEma action (beta in {0,1/4,1/2,3/4} given as alpha or real halflife; irregular timestamps in ns/us/s, tz-aware, before the epoch; halflives finer than the timestamps' resolution).",
    note="trusted: rational recovery (limit_denominator 2^22, 1e-12 guard), timestamp encoders; per-group length <= 7 so TLC's 32-bit integers hold the exact values",
    technique="TLA+ spec GBEma model-checked with TLC + per-row exact-rational trace validation (Trace_GBEma)",
    ref="DESIGN.md section 6/C10"),
@@ -76,7 +76,7 @@ CLAIMED = {
    technique="TLA+ spec GBStats model-checked with TLC + trace validation (Trace_GBCore, Trace_GBApply, Trace_GBCompose)",
    ref="DESIGN.md section 6/C16"),
  "C03": dict(
-   text="One logical call is driven through every execution strategy (thresholds scaled to 2/4 rows: chunk-wise, monotone and partially monotone key routes; 1..4 threads; keys/values as arrow ChunkedArrays incl. misaligned chunks) and each run is validated by TLC against the same GBCore machine, so all strategies agree; TLC explores every completion order of the pool (GBParallel) and block merge (GBReduce); every completion order of 2..4 tasks is forced in the real ThreadPoolExecutor and validated as a trace; scaled replays at the real 1,000,000-row switch-over are validated through the blow-up law (a TLC invariant of GBCore).  The chunked-key block pipeline is its own machine (GBChunked: Arrow's slice of the code array, first-chunk search, one task per piece, merge through the pointer tables with counts; invariants MergedIsDef, PointerAligned, PartialIsPieceDef, 5 negative configurations) and every real reduction on chunked keys is replayed through it with the per-piece partials logged by hook H6 and count_ikey; the pool model (GBParallel) also covers the inline single-task path, FIFO start under a worker bound, raising tasks (first exception met is re-raised), parallel_reduce and termination, each bound by forced-schedule traces.",
+   text="One logical call is driven through every execution strategy (thresholds scaled to 2/4 rows: chunk-wise, monotone and partially monotone key routes; 1..4 threads; keys/values as arrow ChunkedArrays incl. misaligned chunks) and each run is validated by TLC against the same GBCore machine, so all strategies agree; TLC explores every completion order of the pool (GBParallel) and block merge (GBReduce); every completion order of 2..4 tasks is forced in the real ThreadPoolExecutor and validated as a trace; scaled replays at the real 1,000,000-row switch-over are validated through the blow-up law (a TLC invariant of GBCore).  The chunked-key block pipeline is its own machine (GBChunked: Arrow's slice of the code array, first-chunk search, one task per piece, merge through the pointer tables with counts; invariants MergedIsDef, PointerAligned, PartialIsPieceDef, 5 negative configurations) and every real reduction on chunked keys is replayed through it with the per-piece partials logged by hook H6 and count_ikey; the pool model (GBParallel) also covers the inline single-task path, FIFO start under a worker bound, raising tasks (first exception met is re-raised), parallel_reduce and termination, each bound by forced-schedule traces; in the other direction every terminal state TLC reaches in GBParallel and (a sample of) the terminal states of GBChunked are dumped by TLC and replayed into the real pool / a real grouping, which must end in the state's values.",
    note="trusted: harness-side scheduler (subclass of the real ThreadPoolExecutor), threshold scaling via the module global and hook H3, projections",
    technique="TLA+ specs GBParallel/GBReduce/GBCore/GBChunked model-checked with TLC (safety + one liveness property) + trace validation of strategy-product runs, chunk-pipeline runs with hook-logged partials, forced pool schedules and scaled replays",
    ref="DESIGN.md section 6/C03"),
